@@ -490,7 +490,8 @@ class Interp:
     def _abs(self, path):
         if path.startswith('/'):
             return path
-        return '/repo/' + path
+        import os
+        return os.environ.get('VERIF_REPO', '/repo') + '/' + path
 
     def resolve(self, callee, nargs, cur_fn):
         """callee text at a call site -> Function or None"""
